@@ -211,6 +211,8 @@ func init() {
 			c.min("R-THRESHCONV", 7)
 			c.ruleVerifiedVote()
 			c.min("R-VERIFIED/vote", 7)
+			c.ruleValidBeforeEquivocation()
+			c.min("R-VALIDBEFOREEQV", 1)
 			c.ruleAncestryGrandpaVoter()
 			c.min("R-ANCESTRYARGS", 2)
 			c.ruleVoterSelection()
